@@ -4,7 +4,7 @@
    that it emits none of ( ) , : ; where the round trip needs it); nothing is an axiom. *)
 From Coq Require Import List ZArith Bool.
 From TskVerif Require Import Base.Common Gen.Generated C18.Model C18.ParserProofs C18.WriterProofs
-  C18.BufferProofs C18.TextProofs.
+  C18.BufferProofs C18.TextProofs C18.LabelProofs C18.FastaProofs C18.SafetyProofs C18.AsNewickProofs.
 Import ListNotations.
 Open Scope Z_scope.
 
@@ -38,6 +38,21 @@ Theorem fast_equals_general :
     = Ok (py_newick Tm tsub print_num tm lab true prec t).
 Proof. exact c_newick_sufficient. Qed.
 
+(* ... and for EVERY buffer size the C writer returns that string exactly when string, ';' and
+   NUL fit, and TSK_ERR_BUFFER_OVERFLOW otherwise: never a truncated or different string, never
+   an out-of-range array index (OOB), never fuel exhaustion *)
+Theorem c_writer_exact_for_every_buffer :
+  forall (Tm : Type) (tsub : Tm -> Tm -> Tm) (print_num : Z -> Tm -> str) (tm : Z -> Tm)
+         (a : ctree) (ms : bool) (prec rp : Z) (lab : Z -> str) (N : Z) (t : rtree) (B : Z),
+    repb a rp t = true -> NoDup (ids t) -> ~ In rp (ids t) ->
+    0 <= rid t < N ->
+    (forall v, In v (ids t) -> lab_agrees a ms lab v) ->
+    c_newick Tm tsub print_num tm a N (rid t) ms prec B
+    = if zlen (py_build Tm tsub print_num tm lab true prec t) + 2 <=? B
+      then Ok (py_newick Tm tsub print_num tm lab true prec t)
+      else Err c18_err_buffer_overflow.
+Proof. exact c_newick_any_buffer. Qed.
+
 (* the same for the label dictionary as_newick builds by default ({u: f"n{u}" for samples}) *)
 Theorem fast_equals_general_default_labels :
   forall (Tm : Type) (tsub : Tm -> Tm -> Tm) (print_num : Z -> Tm -> str) (tm : Z -> Tm)
@@ -49,6 +64,65 @@ Theorem fast_equals_general_default_labels :
     c_newick Tm tsub print_num tm a N (rid t) false prec B
     = Ok (py_newick Tm tsub print_num tm (lab_default a) true prec t).
 Proof. exact fast_general_default. Qed.
+
+(* ... and for the legacy ms labels ({u: str(u+1) for the leaves below the root}) *)
+Theorem fast_equals_general_ms_labels :
+  forall (Tm : Type) (tsub : Tm -> Tm -> Tm) (print_num : Z -> Tm -> str) (tm : Z -> Tm)
+         (a : ctree) (N rp prec B : Z) (t : rtree),
+    repb a rp t = true -> nodupb (ids t) = true -> memb rp (ids t) = false ->
+    0 <= rid t < N ->
+    zlen (py_build Tm tsub print_num tm (lab_ms_of (leaf_ids t)) true prec t) + 2 <= B ->
+    c_newick Tm tsub print_num tm a N (rid t) true prec B
+    = Ok (py_newick Tm tsub print_num tm (lab_ms_of (leaf_ids t)) true prec t).
+Proof. exact fast_general_ms. Qed.
+
+(* End to end, over the path choice of Tree.as_newick (fast path iff branch lengths are wanted
+   and the labels are the default or the legacy ms ones): a returned string parses back to the
+   tree below the root with the requested labels and branch tokens ... *)
+Theorem as_newick_output_parses_back :
+  forall (Tm : Type) (tsub : Tm -> Tm -> Tm) (print_num : Z -> Tm -> str) (tm : Z -> Tm),
+    (forall p x, cleanb (print_num p x) = true) ->
+    forall (a : ctree) (N rp : Z) (t : rtree) (whole_leaves : list Z),
+      repb a rp t = true -> nodupb (ids t) = true -> memb rp (ids t) = false ->
+      0 <= rid t < N ->
+      (forall v, In v (ids t) -> exists f, get (ct_flags a) v = Ok f) ->
+      (forall v, In v (ids t) -> memb v whole_leaves = memb v (leaf_ids t)) ->
+      forall (l : labspec) (ibl : bool) (prec T : Z) (s : str),
+        labels_clean t l ->
+        as_newick Tm tsub print_num tm a N t whole_leaves l ibl prec T = Ok s ->
+        parse_newick s
+        = Ok (ast_of Tm tsub print_num tm (lab_fn a whole_leaves l) ibl prec None t).
+Proof. exact as_newick_parses_back. Qed.
+
+(* ... and the only way as_newick does not return (in the model) is the fast path's buffer
+   estimate being smaller than the string (F5) *)
+Theorem as_newick_succeeds_or_estimate_too_small :
+  forall (Tm : Type) (tsub : Tm -> Tm -> Tm) (print_num : Z -> Tm -> str) (tm : Z -> Tm)
+         (a : ctree) (N rp : Z) (t : rtree) (whole_leaves : list Z),
+    repb a rp t = true -> nodupb (ids t) = true -> memb rp (ids t) = false ->
+    0 <= rid t < N ->
+    (forall v, In v (ids t) -> exists f, get (ct_flags a) v = Ok f) ->
+    (forall v, In v (ids t) -> memb v whole_leaves = memb v (leaf_ids t)) ->
+    forall (l : labspec) (ibl : bool) (prec T : Z),
+      as_newick Tm tsub print_num tm a N t whole_leaves l ibl prec T
+      = Ok (py_newick Tm tsub print_num tm (lab_fn a whole_leaves l) ibl prec t)
+      \/ (ibl = true /\ (l = LabDefault \/ l = LabMs) /\
+          estimate N T prec
+          < zlen (py_build Tm tsub print_num tm (lab_fn a whole_leaves l) true prec t) + 2 /\
+          as_newick Tm tsub print_num tm a N t whole_leaves l ibl prec T
+          = Err c18_err_buffer_overflow).
+Proof. exact as_newick_ok_or_overflow. Qed.
+
+(* the liveness hypothesis above cannot be dropped (finding M1: legacy ms labels on the general
+   path for a root outside the sample-bearing tree) *)
+Theorem as_newick_ms_labels_refuted :
+  exists (a : ctree) (N rp : Z) (t : rtree) (whole_leaves : list Z) (times : list Z),
+    repb a rp t = true /\ nodupb (ids t) = true /\ memb rp (ids t) = false /\
+    as_newick Z Z.sub print_fixed (fx_tm times) a N t whole_leaves LabMs false 0 0 = Ok (s2z ";") /\
+    as_newick Z Z.sub print_fixed (fx_tm times) a N t whole_leaves LabMs true 0 0 = Ok (s2z "3;") /\
+    parse_newick (s2z ";")
+    <> Ok (ast_of Z Z.sub print_fixed (fx_tm times) (lab_ms_of (leaf_ids t)) false 0 None t).
+Proof. exact as_newick_ms_dead_subtree_refuted. Qed.
 
 (* (c) buffer_estimate_sufficient  —  "for every valid tree the estimate of _as_newick_fast is
    at least |output| + 1"  —  is FALSE for the code as written (finding F5): *)
@@ -97,6 +171,13 @@ Proof. exact wrap_text_spec. Qed.
 Theorem wrap_text_succeeds : forall s w, 0 <= w -> (s <> [] \/ w <> 0) ->
   exists ls, wrap_text s w = Ok ls.
 Proof. exact wrap_text_total. Qed.
+
+(* write_fasta: reading the text back (split at newlines, '>' starts a record) returns, for
+   every sample in order, the label n<id> and exactly its alignment, for every wrap width *)
+Theorem fasta_read_write : forall w recs text,
+  0 <= w -> fasta_text w recs = Ok text -> Forall rec_ok recs ->
+  read_fasta text = map (fun r => (c18_label_prefix ++ dec (fst r), snd r)) recs.
+Proof. exact fasta_roundtrip. Qed.
 
 (* (e) nexus: reading the TREE statements of the written file gives back one statement per
    marginal tree, in order, with the interval name and the newick string unchanged *)
